@@ -312,6 +312,8 @@ class Chipset(object):
         args = [addr(reg) for reg in args]
         data = b''.join([pack(">H", reg) for reg in args])
         data = self._read_register(data)
+        if data is None or len(data) < len(args):
+            self.chipset_error(None)  # less than one value per register
         return list(data) if len(data) > 1 else data[0]
 
     def _read_register(self, data):
